@@ -128,6 +128,15 @@ def directed():
             s = build(kind, "two", "during-execution", la, 1, la == 2, [], sndbuf=4096)
             s["follow"], s["arrival"] = "two", "during-execution"
             out.append(s)
+    # the follow-up is read in many small pieces while the closing request executes: the I/O
+    # thread is in the middle of recv()/received() cycles when the decision is taken
+    for kind in ("conn-close", "raise0"):
+        for la in (1, 2):
+            s = build(kind, "one", "during-execution", la, 1, False, [], sndbuf=4096)
+            s["adj"]["recv_bytes"] = 24
+            s["follow"], s["arrival"] = "one", "during-execution"
+            s["small_reads"] = True
+            out.append(s)
     return out
 
 
@@ -144,12 +153,20 @@ def plan(tier, seed):
     for scn in ds:
         for p in range(parts):
             specs.append({"mode": "enum", "scn": scn, "part": p, "parts": parts, "cap": 450 if tier == "quick" else None})
-    d2 = [d for d in directed() if d.get("arrival") == "during-execution"]
+    d2 = [d for d in directed() if d.get("arrival") == "during-execution" and not d.get("small_reads")]
     if tier == "quick":
         d2 = d2[:2]
     for scn in d2:
         for p in range(8):
             specs.append({"mode": "enum2", "scn": scn, "part": p, "parts": 8, "window": 40 if tier == "quick" else 120})
+    d3 = [d for d in directed() if d.get("small_reads")]
+    if tier == "quick":
+        d3 = d3[:2]
+    for scn in d3:
+        for p in range(8):
+            specs.append({"mode": "enum2", "scn": scn, "part": p, "parts": 8, "window": 30 if tier == "quick" else 80})
+            specs.append({"mode": "enum2", "shape": "service-window", "scn": scn, "part": p, "parts": 8,
+                          "window": 60 if tier == "quick" else 150})
     return specs
 
 
@@ -281,15 +298,27 @@ def run_shard(spec):
             if len(acc.samples) < 1:
                 acc.sample({"scenario": scn, "strategy": strat, "end": o.reason})
     elif spec["mode"] == "enum2":
-        # two pre-emptions: one inside the I/O thread's received() (between its
-        # closing-flag test and its queue push), one shortly after it resumes
         scn = spec["scn"]
-
-        def first(site, cur):
-            return isinstance(site, tuple) and (site[0] == "received" or site == ("lock", "channel.py:__init__"))
-
         k = 0
-        for sw in runner.double_preemptions(scn, first, window=spec.get("window", 40)):
+        if spec.get("shape") == "service-window":
+            # first pre-emption: the I/O thread has just read data (between recv() and the end of
+            # received()) and the worker takes over; second pre-emption: inside the worker's
+            # service() (around its close decision), back to the I/O thread
+            def first(site, cur):
+                return isinstance(site, tuple) and site[0] in ("recv", "handle_read", "received", "sock")
+
+            def second(site):
+                return isinstance(site, tuple) and (site[0] == "service" or site[0] in ("lock", "unlock"))
+
+            gen = runner.double_preemptions(scn, first, window=spec.get("window", 60), second="target", second_filter=second)
+        else:
+            # two pre-emptions: one inside the I/O thread's received() (between its
+            # closing-flag test and its queue push), one shortly after it resumes
+            def first(site, cur):
+                return isinstance(site, tuple) and (site[0] == "received" or site == ("lock", "channel.py:__init__"))
+
+            gen = runner.double_preemptions(scn, first, window=spec.get("window", 40))
+        for sw in gen:
             k += 1
             if k % spec["parts"] != spec["part"]:
                 continue
